@@ -135,3 +135,137 @@ def class_type_unit(prop):
     return Unit(prop, "jsonargparse._typehints:adapt_class_type", act_setup, act_post, act_raises, max_paths=20000,
                 trusted=["subclass_spec_as_namespace normalises the spec (C14 unit); import_object imports class_path", "get_class_parser(cls) builds the parser of exactly cls; parser.parse_object validates (C06 units)",
                          "get_class_instantiator() calls the class with the given keyword arguments", "no linked targets, no NestedArg init_args in these scenarios"])
+
+
+# ============================================================================ the subclass arm of adapt_typehints
+IMPORTS = ["subclass", "unrelated-class", "callable-returning-subclass", "callable-returning-other", "ImportError", "AttributeError", "an-instance-of-the-type", "a-protocol"]
+
+
+def sa_setup(ctx):
+    from contracts.adapt_arms import UNEXPECTED, suppress_cm
+    val_kind = ["instance-of-the-type", "valid-spec", "not-a-spec", "text-while-serialising"][ctx.choose(4, "val-kind")]
+    serialize = True if val_kind == "text-while-serialising" else ctx.choose(2, "serialize") == 1
+    imp = IMPORTS[ctx.choose(len(IMPORTS), "import-of-class_path")] if val_kind == "valid-spec" else None
+    typehint = Rec("class Base", attrs={"__name__": "Base"})
+    instance = Rec("instance of Base")
+    imported = Rec("imported object", attrs={"kind": imp})
+    adapted = Rec("result of adapt_class_type")
+    spec_store = {"class_path": "pkg.Thing", "init_args": Rec("Namespace")}
+    spec = Rec("Namespace", attrs={"store": spec_store}, methods={"__getitem__": lambda c, s_, a, k: s_.attrs["store"][a[0]], "__setitem__": lambda c, s_, a, k: s_.attrs["store"].__setitem__(a[0], a[1])})
+    val = {"instance-of-the-type": instance, "valid-spec": spec, "not-a-spec": z3.Int("val"), "text-while-serialising": z3.String("val")}[val_kind]
+
+    def unexpected(c, a, k):
+        raise PyRaise(ExcVal("ValueError", args=(a[0],), origin=UNEXPECTED))
+
+    def import_object(c, a, k):
+        c.event("import", a[0])
+        if imp in ("ImportError", "AttributeError"):
+            raise PyRaise(ExcVal(imp, origin="import_object"))
+        return imported
+
+    def is_sub(c, a, k):
+        obj = a[0]
+        if obj is imported:
+            return imp == "subclass"
+        if isinstance(obj, Rec) and obj.cls == "return type":
+            return obj.attrs["ok"]
+        return False
+
+    calls = {
+        "inspect.isclass": lambda c, a, k: (a[0] is typehint) or (a[0] is imported and imp in ("subclass", "unrelated-class", "a-protocol")),
+        "is_instance_or_supports_protocol": lambda c, a, k: a[0] is instance or (a[0] is imported and imp == "an-instance-of-the-type"),
+        "serialize_class_instance": lambda c, a, k: "pkg.instance_path",
+        "inspect.isabstract": lambda c, a, k: False, "is_protocol": lambda c, a, k: a[0] is imported and imp == "a-protocol",
+        "get_import_path": lambda c, a, k: "pkg.Base" if a[0] is typehint else "pkg.normalised.Path",
+        "Namespace": lambda c, a, k: Rec("Namespace", attrs={"implicit": dict(k)}),
+        "subclass_spec_as_namespace": lambda c, a, k: a[0], "is_subclass_spec": lambda c, a, k: a[0] is spec,
+        UNEXPECTED: unexpected, "resolve_class_path_by_name": lambda c, a, k: a[1], "import_object": import_object,
+        "is_subclass_or_implements_protocol": is_sub, "callable": lambda c, a, k: a[0] is imported and imp.startswith("callable"),
+        "get_return_type": lambda c, a, k: Rec("return type", attrs={"ok": imp == "callable-returning-subclass"}),
+        "adapt_class_type": lambda c, a, k: (c.event("adapt_class_type", a[0], dict(k), dict(a[0].attrs["store"])), adapted)[1],
+        "indent_text": lambda c, a, k: a[0],
+    }
+    consts = {"logger": Rec("Logger")}
+    env = {"val": val, "typehint": typehint, "serialize": serialize, "prev_val": None, "instantiate_classes": False, "sub_add_kwargs": {}, "logger": None}
+    return Setup(env=env, calls=calls, consts=consts, cms={"suppress": suppress_cm()},
+                 data=dict(val_kind=val_kind, serialize=serialize, imp=imp, instance=instance, imported=imported, adapted=adapted, spec=spec, spec_store=spec_store, val=val))
+
+
+def sa_post(ctx, st, result):
+    from contracts.adapt_arms import UNEXPECTED
+    d = st.data
+    tag = f"[{d['val_kind']}{':' + d['imp'] if d['imp'] else ''}{',serialize' if d['serialize'] else ''}]"
+    out = result if result is not None else d["env"].lookup("val")
+    if d["val_kind"] == "instance-of-the-type":
+        ctx.oblige("post", "fixpoint:an-instance-of-the-declared-type-is-returned-as-it-is(serialised to its import path when dumping)" + tag, (out == "pkg.instance_path") if d["serialize"] else (out is d["instance"]))
+        return
+    if d["val_kind"] == "text-while-serialising":
+        ctx.oblige("post", "a-text-is-left-alone-when-serialising" + tag, out is d["val"])
+        return
+    ctx.oblige("post", "accepted=>the-value-is-a-spec-and-its-class_path-imports-to-a-subclass-of-the-declared-type(or a callable returning one, or an instance)" + tag,
+               d["val_kind"] == "valid-spec" and d["imp"] in ("subclass", "callable-returning-subclass", "an-instance-of-the-type"))
+    if d["imp"] in ("subclass", "callable-returning-subclass"):
+        calls_ = [e for e in ctx.events if e[0] == "adapt_class_type"]
+        ctx.oblige("post", "the-spec-is-handed-to-adapt_class_type-once,with-the-normalised-import-path,and-its-result-returned" + tag,
+                   len(calls_) == 1 and calls_[0][1] is d["spec"] and calls_[0][3].get("class_path") == "pkg.normalised.Path" and out is d["adapted"])
+    elif d["imp"] == "an-instance-of-the-type":
+        ctx.oblige("post", "an-importable-instance-is-returned-itself" + tag, out is d["imported"])
+
+
+def sa_raises(ctx, st, exc):
+    from contracts.adapt_arms import UNEXPECTED
+    d = st.data
+    tag = f"[{d['val_kind']}{':' + d['imp'] if d['imp'] else ''}]"
+    ctx.oblige("raises", "every-failure-leaves-as-the-unexpected-value-error(no ImportError / AttributeError escapes)" + tag, exc.origin == UNEXPECTED and exc.cls == "ValueError")
+    ctx.oblige("raises", "rejected=>not-a-spec,or-class_path-does-not-import-to-a-subclass" + tag,
+               d["val_kind"] == "not-a-spec" or d["imp"] in ("unrelated-class", "callable-returning-other", "ImportError", "AttributeError", "a-protocol"))
+
+
+def subclass_arm_unit(prop):
+    from contracts.adapt_arms import TARGET
+    return Unit(prop, TARGET.format("not hasattr(typehint, '__origin__') and inspect.isclass(typehint)"), sa_setup, sa_post, sa_raises, label="subclass", expect_cover=("return", "raise:ValueError"),
+                trusted=["import_object / inspect / is_subclass_or_implements_protocol / get_return_type: assumed introspection contracts (A4), exercised by the bounded harness",
+                         "adapt_class_type: unit of its own"])
+
+
+# ============================================================================ discard_init_args_on_class_path_change
+def di_setup(ctx):
+    changed = ctx.choose(2, "class_path-changed") == 1
+    keys = ["a", "b"]
+    fate = {k: ["accepted-by-the-new-class", "unknown-to-the-new-class", "known-but-ill-typed"][ctx.choose(3, f"{k}-in-new-class")] for k in keys}
+    init_store = {k: z3.Int(f"prev.init_args.{k}") for k in keys}
+    init_ns = Rec("Namespace", attrs={"store": init_store}, methods={"pop": lambda c, s_, a, k: s_.attrs["store"].pop(a[0])})
+    init_ns.attrs["__dict__"] = Rec("dict-view", methods={"items": lambda c, s_, a, k: list(init_store.items())})
+    prev_store = {"class_path": "pkg.Old", "init_args": init_ns}
+    prev = Rec("Namespace", attrs={"store": prev_store}, methods={"__contains__": lambda c, s_, a, k: a[0] in prev_store, "__getitem__": lambda c, s_, a, k: prev_store[a[0]],
+                                                               "__getattr__": lambda c, s_, a, k: prev_store[a[0]]})
+    value = Rec("Namespace", methods={"__getitem__": lambda c, s_, a, k: "pkg.New" if changed else "pkg.Old"})
+
+    def check(c, s_, a, k):
+        if fate[a[2]] == "known-but-ill-typed":
+            raise PyRaise(ExcVal("TypeError", origin="_check_value_key"))
+        return a[1]
+
+    parser = Rec("ArgumentParser", attrs={"parser_mode": "yaml", "logger": Rec("Logger", methods={"debug": lambda c, s_, a, k: None})}, methods={"_check_value_key": check})
+    from contracts.parse_models import noop_cm
+    calls = {"subclass_spec_as_namespace": lambda c, a, k: a[0], "_find_action": lambda c, a, k: None if fate[a[1]] == "unknown-to-the-new-class" else Rec("Action"),
+             "Namespace": lambda c, a, k: Rec("Namespace")}
+    consts = {"ActionTypeHint": ClassRef("ActionTypeHint")}
+    return Setup(env={"parser_or_action": parser, "prev_val": prev, "value": value}, calls=calls, consts=consts, cms={"parser_context": noop_cm("parser_context")},
+                 data=dict(changed=changed, fate=fate, init_store=init_store, keys=keys))
+
+
+def di_post(ctx, st, result):
+    d = st.data
+    remaining = set(d["init_store"])
+    want = set(d["keys"]) if not d["changed"] else {k for k in d["keys"] if d["fate"][k] == "accepted-by-the-new-class"}
+    ctx.oblige("post", "on-a-class-change-exactly-the-previous-init_args-the-new-class-rejects-are-dropped;without-a-change-none", remaining == want, note=f"{d['fate']} changed={d['changed']} remaining={sorted(remaining)}")
+
+
+def di_raises(ctx, st, exc):
+    ctx.oblige("raises", f"no-own-exception(got {exc.cls}@{exc.origin})", False)
+
+
+def discard_unit(prop):
+    return Unit(prop, "jsonargparse._typehints:discard_init_args_on_class_path_change", di_setup, di_post, di_raises,
+                trusted=["_find_action(parser, key) finds the new class's parameter; parser._check_value_key raises for an ill-typed value", "parser given directly (the ActionTypeHint variant builds it with get_class_parser)"])
